@@ -34,7 +34,8 @@ Expected(s, coms, side) ==
       fIdx == nseg + 2                \* first FRI layer commitment
       rIdx == nseg + 2 + s.layers     \* remainder commitment
   IN <<Ev("new", 0, ANY), Ev("reseed", 0, coms[1])>>
-     \o (IF s.aux = 1 THEN <<Ev("draw", s.rands, ""), Ev("reseed", 0, coms[2])>> ELSE <<>>)
+     \* (an auxiliary segment may declare zero random elements: nothing is drawn, its commitment is absorbed all the same)
+     \o (IF s.aux = 1 THEN (IF s.rands > 0 THEN <<Ev("draw", s.rands, "")>> ELSE <<>>) \o <<Ev("reseed", 0, coms[2])>> ELSE <<>>)
      \o <<Ev("draw", s.ncc, ""), Ev("reseed", 0, coms[cIdx]), Ev("draw", 1, ""),
           Ev("reseed", 0, ANY) \* digest of the out-of-domain frame
         , Ev("draw", s.ndeep, "")>>
@@ -50,7 +51,7 @@ EvMatches(got, exp) ==
 SeqMatches(got, exp) == Len(got) = Len(exp) /\ \A i \in 1..Len(exp) : EvMatches(got[i], exp[i])
 
 \* index of the OOD reseed in a sequence
-OodIndex(s) == 2 + (IF s.aux = 1 THEN 2 ELSE 0) + 4
+OodIndex(s) == 2 + (IF s.aux = 1 THEN (IF s.rands > 0 THEN 2 ELSE 1) ELSE 0) + 4
 
 Explains(r) ==
   /\ Len(r.commitments) = 1 + r.sched.aux + 1 + r.sched.layers + 1
